@@ -258,10 +258,11 @@ def tasks(tier):
     t = [('contracts.c04', 'task_restrict', dict(sc=s)) for s in range(7)]
     t.append(('contracts.c04', 'task_restrict_weights', {}))
     t += [('contracts.c04', 'task_restrict_model', dict(sc=s)) for s in range(7)]
-    from . import c04_control, c04_prolong, c04_rgp
+    from . import c04_control, c04_prolong, c04_rgp, c04_wf
     t += c04_control.tasks(tier)
     t += c04_prolong.tasks(tier)
     t += c04_rgp.tasks(tier)
+    t += c04_wf.tasks(tier)
     return t
 
 
@@ -272,7 +273,8 @@ LEVEL = ('Deductive proof over the real source: core.restrict equals the transpo
          'interpolated transverse slice of coarse index I to the interior of fine index 2I, 2I+1 (or I) of the same component and writes nothing else '
          '(generic iteration of each loop, all seven patterns), given the contract RGP of the interpolator; RGP itself: the class RegularGridProlongator executed from source on '
          'point-wise values (generic fine point, symbolic coarse / fine node vectors) returns the bilinear hat interpolant on every coarse interval pair containing the point.')
-ASSUMPTIONS = ['WF(grid): cell_centers are midpoints of consecutive nodes, h the node differences, coarse nodes every second fine node (established by meshes.BaseMesh and np.diff(nodes[::2]); checked concretely, not deductively)',
+ASSUMPTIONS = ['WF(grid) is proved for meshes.BaseMesh (every grid below the finest one) and for the coarse-grid construction in solver.restriction (contracts/c04_wf.py); for the finest grid, '
+               'which may be a discretize.TensorMesh (third party), WF (nodes = origin + cumulated widths, cell centres = node midpoints) remains an assumption',
                'numpy layout contracts used by the RGP proof (broadcast_arrays, ravel/reshape in Fortran order, searchsorted = first index, gather, np.where, masked store): listed in the trusted base; '
                'preconditions of RGP (strictly increasing coarse nodes, fine nodes inside the coarse range) hold at the call sites because coarse nodes are every second fine node (WF)',
-               'lemma: coarse nodes = origin + cumsum(diff(nodes[::r])) = nodes[::r] (telescoping sum, trusted)']
+               'coarse nodes = nodes[::r]: base and step of the induction are obligations of c04_wf; the induction principle itself (over the coarse node index) is the usual one, not re-derived']
